@@ -45,9 +45,11 @@ def spec_strategy():
         st.integers(-5, 40).map(lambda v: {'kind': 'int', 'v': v}),
         val.map(lambda v: {'kind': 'np', 'v': v}))
     return st.fixed_dictionaries({
-        'dc': st.one_of(specs.logfloat(-3, 3, 6), st.sampled_from([1.0, 1.5, 0.25])),
+        # characteristic values with few digits and with all 17 significant digits of a double (a value that went through a
+        # '%g'-style format on its way into the unit registry is only exact for the former)
+        'dc': st.one_of(specs.logfloat(-3, 3, 6), specs.logfloat(-3, 3, 17), st.sampled_from([1.0, 1.5, 0.25])),
         'dc_unit': st.sampled_from(sorted(LENGTH_UNITS)),
-        'ec': st.one_of(specs.logfloat(-3, 3, 6), st.sampled_from([2.48, 1.0])),
+        'ec': st.one_of(specs.logfloat(-3, 3, 6), specs.logfloat(-3, 3, 17), st.sampled_from([2.48, 1.0])),
         'ec_unit': st.sampled_from(sorted(ENERGY_UNITS)),
         'mc': specs.logfloat(-2, 3, 5), 'mc_unit': st.sampled_from(MASS_UNITS),
         'arg': arg, 'diameter': st.one_of(specs.logfloat(-2, 2, 6), specs.logfloat(-2, 2, 6), st.sampled_from([1.0, 2, 0.0, 0])),
